@@ -2,3 +2,4 @@ from propcfg.common import *
 from propcfg.tmplcommon import *
 
 CFG = dict(TMPL_C06)
+CFG["proof_modules"] = ["SafeHtml.Proofs.Frozen"]
